@@ -213,15 +213,22 @@ def run(ctx):
 
     # ---- support search (H_unique; partial clause) — a failure is a violation of the property on the real code
     n_known = 0
+    MAX_REPORT = 8      # individual VIOLATION lines per category; the rest is summarised in the last one
+    n_rep = 0
     for f in sup["failures"]:
         e = next((e for e in known if known_match(e, f)), None)
         if e is not None:
             V.report_known(ctx, e)
             n_known += 1
             continue
-        V.violation(ctx, "result accepted with a guess differs from the stand-alone result: %s %s (max rel diff %.3g > %.1g)"
-                    % (f["what"], json.dumps(f["key"])[:160], f["max_rel_diff"], f["tol"]),
-                    {"broken": "H_unique (support search on the public API)", "failing": f}, found_input=True)
+        n_rep += 1
+        if n_rep > MAX_REPORT:
+            continue
+        more = len(sup["failures"]) - MAX_REPORT if n_rep == MAX_REPORT and len(sup["failures"]) > MAX_REPORT else 0
+        V.violation(ctx, "result accepted with a guess differs from the stand-alone result: %s %s (max rel diff %.3g > %.1g)%s"
+                    % (f["what"], json.dumps(f["key"])[:160], f["max_rel_diff"], f["tol"], " [+%d more such failures in this run]" % more if more else ""),
+                    {"broken": "H_unique (support search on the public API)", "failing": f,
+                     "further_failures": sup["failures"][MAX_REPORT:MAX_REPORT + 40] if more else []}, found_input=True)
     for f in sup["missing_points"]:
         e = next((e for e in known if known_match(e, f)), None)
         if e is not None:
